@@ -7,6 +7,7 @@ import seqengine as se
 import props_cl
 import props_dq
 import props_conc
+import props_obj
 import concengine
 
 SEQ_PLANS = {}
@@ -21,6 +22,8 @@ for _pid, _fn in props_conc.PLANS.items():
 def run(pid, tier, seed):
     if tier not in ("quick", "thorough"):
         raise MachineryError("tier must be quick or thorough")
+    if pid in COMPOSITE:
+        return planmod.run_composite(pid, tier, seed, [f(tier, seed) for f in COMPOSITE[pid]])
     if pid in SEQ_PLANS:
         return planmod.run_plan(pid, tier, seed, SEQ_PLANS[pid](tier, seed))
     if pid in CUSTOM:
@@ -45,8 +48,8 @@ def setup():
         return 2
     jobs = []
     seen = set()
-    for pid, fn in SEQ_PLANS.items():
-        p = fn("quick", 1)
+    allplans = [fn("quick", 1) for fn in SEQ_PLANS.values()] + [f("quick", 1) for fs in COMPOSITE.values() for f in fs]
+    for p in allplans:
         for w in p["worlds"]:
             key = (w["source"], tuple(w.get("defines", ())), w.get("compiler", "g++"), w.get("std", "c++11"), w.get("opt", "-O1"), w.get("sanitize", True))
             if key in seen:
@@ -73,11 +76,16 @@ def replay(path):
     if r.get("engine") == "seq":
         wd = scratch("replay")
         try:
-            tier_plan = SEQ_PLANS[pid]("quick", 1)
-            w = [x for x in tier_plan["worlds"] if x["name"] == r["world"]]
-            if not w:
-                w = [x for x in SEQ_PLANS[pid]("thorough", 1)["worlds"] if x["name"] == r["world"]]
-            w = w[0]
+            fns = COMPOSITE.get(pid) or [SEQ_PLANS[pid]]
+            cands = []
+            for fn in fns:
+                for tier in ("quick", "thorough"):
+                    pl = fn(tier, 1)
+                    wl = pl["worlds"](tier, 1) if callable(pl["worlds"]) else pl["worlds"]
+                    cands += [x for x in wl if x["name"] == r["world"] and pl["trace_module"] == r["trace_module"]]
+            if not cands:
+                raise MachineryError("world %s not found for %s" % (r["world"], pid))
+            w = cands[0]
             exe = build(w["source"], defines=w.get("defines", ()), compiler=w.get("compiler", "g++"), std=w.get("std", "c++11"),
                         opt=w.get("opt", "-O1"), sanitize=w.get("sanitize", True), name=w["name"])
             rej = {"script": r["script"], "world": r["world"]}
@@ -98,6 +106,35 @@ def replay(path):
 
 
 REPLAYERS = {"conc": concengine.replay_conc}
+
+
+def _c10_plan(tier, seed):
+    models, worlds = props_obj.c10_objgen(tier, seed)
+    return {"interp": "harness/obj_interp.cpp", "trace_module": "TraceObj", "models": models, "worlds": worlds,
+            "defects": [{"module": "ObjGen", "constants": props_obj.oconsts(objs=2, cbs=1, enq=1, filters=0), "invariants": props_obj.OINV, "defect": "uninit"},
+                        {"module": "ObjGen", "constants": props_obj.oconsts(objs=2, cbs=1, enq=0, filters=0), "invariants": props_obj.OINV, "defect": "share"}],
+            "rule": "every transition of the bounded ObjGen reference model (2-3 objects; copy/move construction into storage pre-filled with 0xAB/0xFF/0x00/0xA5, "
+                    "copy/move assignment incl. self, swap incl. self, destruction; listener/filter changes, dispatch, enqueue/process/emptyQueue/waitFor on "
+                    "sources and results) replayed on EventQueue, EventDispatcher (MixinFilter), HeterEventQueue, HeterEventDispatcher (MixinHeterFilter) "
+                    "in C++11/14/17/20 builds; each script ends with an independence probe (strip one object, dispatch on all); non-trivial = the script "
+                    "contains a copy/move/assign/swap",
+            "assumptions": props_obj.ASSUME}
+
+
+def _c10_lists(tier, seed):
+    quick = tier == "quick"
+    c = props_cl.consts(3 if quick else 4, 2 if not quick else 1, lists=2, ops={"a", "r", "v", "cc", "mc", "ca", "ma", "s", "d"} if quick else {"a", "i", "r", "v", "o", "cc", "mc", "ca", "ma", "s", "d"},
+                        nest={"a", "r"} if not quick else set(), jump=(1,))
+    return {"interp": "harness/cl_interp.cpp", "trace_module": "TraceCL",
+            "models": [{"module": "CLImpl", "tag": "two-lists", "constants": c, "invariants": props_cl.INV, "heap": "16g"}],
+            "worlds": [props_cl.world("cl_single_fn", 0, 0), props_cl.world("cl_multi_cb", 1, 1, fraction=0.2, fill="0xFF")],
+            "nontrivial_key": "scripts",
+            "rule": "every transition of the CLImpl model with two CallbackList objects: copy/move construction, copy/move assignment (incl. self), swap "
+                    "(incl. self) and destruction interleaved with list operations and invocations; generation counters travel with the nodes",
+            "assumptions": props_cl.ASSUME}
+
+
+COMPOSITE = {"C10": [_c10_plan, _c10_lists]}
 
 
 def baseline_off():
